@@ -39,13 +39,15 @@ func allRules() []*Rule {
 		with(ruleR25(), r25ScratchBound),
 		ruleR26(),
 		with(ruleR27(), r27StoredBlock),
-		ruleR28(),
-		with(ruleR29(), r29FlagPerPosting),
+		with(ruleR28(), r28CoReset),
+		with(ruleR29(), r29FlagPerPosting, r29ElementFresh),
 		ruleR30(),
 		ruleR31(),
 		ruleR32(),
 		ruleR33(),
 		ruleR34(),
+		ruleR35(),
+		ruleR36(),
 		ruleR21(),
 		ruleR22(),
 		ruleR23(),
